@@ -24,7 +24,7 @@ RULE = ("Exhaustive: for each of the 19 block types + SYMBOLSET x parent context
         "'not found in the JSON schema' log record, loads(dumps(d)) == d up to C01's licences, validation returns no message "
         "other than a missing required keyword, the auto-creating dict yields a list exactly for array-typed keys. Plus: every "
         "block type the grammar opens has a schema and 'TYPE END' prints and parses at the root; every declared default validates "
-        "against its own keyword; create(type, version) prints, re-loads and validates for all schema files x 7 versions. "
+        "against its own keyword; create(type, version) prints, re-loads and validates for all schema files x 26 versions (none, 3.8 .. 8.6). "
         "Non-trivial: position is not 'only' or the parent is not the root. Distinct = (parent, type, keyword, alternative, value, position).")
 ASSUMPTIONS = [
     "values are written the way MapServer writes them: colour components are ints, hex colours have 3/6/8 digits (4/5/7-digit and float colours: see DESIGN section 5, item 17)",
@@ -35,7 +35,9 @@ TIERS = {
     "thorough": {"budget_s": 1500, "exhaustive": True, "reps": 3},
 }
 PARTS = ["slots_part", "tables_part"]
-VERSIONS = [None, 5.0, 6.0, 7.0, 7.6, 8.0, 8.2]
+# no version, and every MapServer version from below the oldest to above the newest boundary named in a schema
+# (minVersion / maxVersion values run from 4.0 to 8.2), in the 0.2 steps MapServer releases use
+VERSIONS = [None] + [round(3.8 + 0.2 * i, 1) for i in range(25)]
 _REPLAY = {"on": False}
 
 
